@@ -56,6 +56,8 @@ type Opt struct {
 	Pack       bool // with ByName: consecutive streams with equal resource attributes share a ResourceLogs, with equal scope attributes a ScopeLogs — records of different streams then sit in ONE scope
 	OmitBody   bool // an empty line travels as an unset body / an absent "message" key instead of an empty string
 	Reverse    bool // remote-write: labels of every series in reverse order
+	// request context, not part of the body
+	TTLDays uint16 // value of the X-Ttl-Days header (context value TTL_DAYS); 0 = absent
 }
 
 // jstr writes s as a JSON string with the minimal escapes (the bytes of s are otherwise copied verbatim, so a
